@@ -57,7 +57,7 @@ Proof.
     assert (L' : (length rest <= fu)%nat).
     { rewrite !lenZ_length in Lr. simpl length in *. lia. }
     destruct (IH _ _ _ L' D') as [-> V]. split; auto.
-    unfold vis in *. cbn [flat_map vis_str app]. rewrite V. rewrite <- map_app. f_equal.
+    unfold vis in *. cbn [flat_map vis_str app]. change (0 <=? -1) with false. cbv iota. rewrite app_nil_r. rewrite V. rewrite <- map_app. f_equal.
     change (x :: takeZ (UPCAP - 1) kb) with (takeZ UPCAP (x :: kb)). unfold rest. apply takeZ_dropZ.
 Qed.
 
@@ -80,4 +80,54 @@ Proof.
   destruct (T _ _ _ _ (le_n _) D) as [-> V1].
   destruct (run body {| inner := s; dead := 0 |} cs) as [w2 e2]. simpl in *. destruct IH as [-> V2].
   split; auto. rewrite vis_app, V1, V2, map_app. reflexivity.
+Qed.
+
+(** a property of every way a call can return *)
+Inductive leaves {S} (P : S -> Z -> Prop) : prog S -> Prop :=
+| lv_done s r : P s r -> leaves P (PDone s r)
+| lv_read st req k : (forall d, leaves P (k d)) -> leaves P (PRead st req k)
+| lv_up d z p : leaves P p -> leaves P (PUp d z p)
+| lv_dn d p : leaves P p -> leaves P (PDn d p)
+| lv_mark n p : leaves P p -> leaves P (PMark n p)
+| lv_hdr n p : leaves P p -> leaves P (PHdr n p)
+| lv_fault : leaves P PFault.
+
+Lemma leaves_exec {S} (P : S -> Z -> Prop) (p : prog S) : leaves P p ->
+  forall kb s1 r k e, exec p kb = (Some (s1, r), k, e) -> P s1 r.
+Proof.
+  induction 1; intros kb s1 r0 k0 e0 E; simpl in E;
+    try (destruct (exec p kb) as [[o' k'] e'] eqn:E'; inversion E; subst; eauto; fail).
+  - inversion E; subst; auto.
+  - destruct (exec (k (takeZ req kb)) (dropZ req kb)) as [[o' k'] e'] eqn:E'. inversion E; subst. eauto.
+  - inversion E.
+Qed.
+Lemma flush_queue_leaves {S} P q (p : prog S) : leaves P p -> leaves P (flush_queue q p).
+Proof. induction q; simpl; auto. intros. constructor. auto. Qed.
+
+(** a call that cannot Fault, given that a read of [req] bytes obtains at most [req] bytes *)
+Inductive safe {S} : prog S -> Prop :=
+| sf_done s r : safe (PDone s r)
+| sf_read st req k : (forall d, lenZ d <= Z.max 0 req -> safe (k d)) -> safe (PRead st req k)
+| sf_up d z p : safe p -> safe (PUp d z p)
+| sf_dn d p : safe p -> safe (PDn d p)
+| sf_mark n p : safe p -> safe (PMark n p)
+| sf_hdr n p : safe p -> safe (PHdr n p).
+
+Lemma safe_exec {S} (p : prog S) : safe p -> forall kb k e, exec p kb = (None, k, e) -> False.
+Proof.
+  induction 1; intros kb k0 e0 E; simpl in E;
+    try (destruct (exec p kb) as [[o' k'] e'] eqn:E'; inversion E; subst; eauto; fail).
+  - inversion E.
+  - destruct (exec (k (takeZ req kb)) (dropZ req kb)) as [[o' k'] e'] eqn:E'. inversion E; subst.
+    eapply H0; [|exact E']. rewrite lenZ_takeZ. pose proof (lenZ_nonneg kb). lia.
+Qed.
+Lemma flush_queue_safe {S} q (p : prog S) : safe p -> safe (flush_queue q p).
+Proof. induction q; simpl; auto. intros. constructor. auto. Qed.
+
+(** a call that starts with a read of at least one byte makes progress on a non-empty buffer *)
+Lemma read_progress {S} st req (k : list Z -> prog S) kb o k1 e : 1 <= req -> kb <> [] ->
+  exec (PRead st req k) kb = (o, k1, e) -> lenZ k1 < lenZ kb.
+Proof.
+  intros R N E. simpl in E. destruct (exec (k (takeZ req kb)) (dropZ req kb)) as [[o' k'] e'] eqn:E'. inversion E; subst.
+  apply exec_suffix in E'. rewrite lenZ_dropZ in E'. pose proof (lenZ_pos kb N). lia.
 Qed.
